@@ -170,7 +170,7 @@ class GraphRun:
             _check(xs)
             if kind == "c":
                 CALLS[rid].append(i)
-            args = [str(x) for x in xs] + ([_keystr(seed)] if seeded else [])
+            args = ["-" if x is None else str(x) for x in xs] + ([_keystr(seed)] if seeded else [])
             return Term(f"f{i}(" + ",".join(args) + ")")
         return fn
 
@@ -185,7 +185,7 @@ class GraphRun:
                 _check((*self.params, x))
                 if kind == "d":
                     CALLS[rid].append(i)
-                return Term(f"f{i}(" + ",".join(str(v) for v in (*self.params, x)) + ")")
+                return Term(f"f{i}(" + ",".join("-" if v is None else str(v) for v in (*self.params, x)) + ")")
         return FakeDist
 
     # ---- observation ---------------------------------------------------------------
@@ -195,7 +195,7 @@ class GraphRun:
         def read(i):
             try:
                 v = self.model.nodes[self._name(i)].value
-                return _keystr(v) if self.plan[i - 1].get("seed_for") else str(v)
+                return _keystr(v) if self.plan[i - 1].get("seed_for") else "-" if v is None else str(v)
             except Exception:  # noqa: BLE001  (a transient node over a poisoned input raises when read)
                 return "ERR"
         val = [read(i) for i in range(1, self.n + 1)]
@@ -258,6 +258,15 @@ class GraphRun:
                 return self.rebuild(o["n"], o["x"])
             elif o["ev"] == "flag_outdated":
                 m.nodes[self._name(o["n"])].flag_outdated()
+            elif o["ev"] == "clear_state":
+                nd = m.nodes[self._name(o["n"])]
+                how = o.get("how", 0)
+                if how == 0:
+                    nd.clear_state()
+                elif how == 1:
+                    nd.state = lsl.NodeState(None, True)
+                else:
+                    m.state = {nd.name: lsl.NodeState(None, True)}
             elif o["ev"] == "node_update":
                 m.nodes[self._name(o["n"])].update()
             elif o["ev"] == "reload":
@@ -326,6 +335,7 @@ GraphRun._configure_builder = lambda self, gb: None
 def gen_ops(rng, plan, nops, atoms=("a", "b", "c"), reload_ok=False):
     vals = [i + 1 for i, p in enumerate(plan) if p["kind"] == "v" and not p.get("seed_for")]
     nonval = [i + 1 for i, p in enumerate(plan) if p["kind"] != "v"]
+    caching = [i + 1 for i, p in enumerate(plan) if SPEC_KIND[p["kind"]] == "c"]
     seeded = any(p.get("seeded") for p in plan)      # (a rebuild would reset the model's seed nodes: not combined)
     nslots = 0
     ops = []
@@ -370,6 +380,12 @@ def gen_ops(rng, plan, nops, atoms=("a", "b", "c"), reload_ok=False):
             ops.append({"ev": "flag_outdated", "n": i})
             if rng.random() < 0.5:
                 ops.append({"ev": "node_update_chain", "n": i})
+        elif r < 0.40 and reload_ok and caching:
+            # the cache entry of one node dropped through the state API (three spellings), then an ancestor assigned
+            ops.append({"ev": "clear_state", "n": rng.choice(caching), "how": rng.randint(0, 2)})
+            if vals and rng.random() < 0.6:
+                ops.append({"ev": "assign", "n": rng.choice(vals), "x": rng.choice(atoms) + str(rng.randint(0, 2)),
+                            "via_var": rng.random() < 0.5})
         elif r < 0.45:
             i = rng.choice(vals)
             ops.append({"ev": "assign", "n": i, "x": rng.choice(atoms) + str(rng.randint(0, 2)),
